@@ -226,6 +226,20 @@ pub fn run(ctx: &mut Ctx) {
             let style = if rng.chance(1, 4) { refpath::RStyle { spacing: rng.bool(), kwcase: false, quoting: true, esc: true } } else { refpath::PLAIN };
             let text = refpath::render(&path, &style, &mut rng);
             check(ctx, &doc, &path, &text);
+            if round == 0 && matches!(path, JPath::Steps(_)) {
+                // the same path written without the leading `$` (`a.b`, `[0].a`, `:a`): the relations
+                // between the modes and the existence test hold for every path the parser accepts
+                let plain = refpath::render(&path, &refpath::PLAIN, &mut rng);
+                let rootless = plain.strip_prefix("$.").filter(|r| r.starts_with(|c: char| c.is_ascii_alphabetic())).or_else(|| plain.strip_prefix('$').filter(|r| r.starts_with('[') || r.starts_with(':')));
+                if let Some(r) = rootless {
+                    // (a first name that is also a literal or keyword would be read as one)
+                    let first: String = r.chars().take_while(|c| c.is_ascii_alphanumeric() || *c == '_').collect::<String>().to_ascii_lowercase();
+                    if !r.is_empty() && !["true", "false", "null", "last", "exists", "to", "nan", "inf", "infinity"].contains(&first.as_str()) {
+                        ctx.count("rootless spellings");
+                        check(ctx, &doc, &path, r);
+                    }
+                }
+            }
             if round == 2 && i % 2 == 0 && !refpath::has_arith(&path) {
                 let other = refcodec::encode(&crate::gen::derive(&doc, &mut rng));
                 let enc = refcodec::encode(&doc);
